@@ -325,6 +325,47 @@ int main(int argc, char **argv)
 			O().seen("shapes", mix(mix(T, fnv(w.desc)), nk));
 			if (hI == 0) O().sample("{\"threads\":" + std::to_string(T) + ",\"world\":" + jstr(w.desc) + ",\"first_ops\":" + hist_json(h, 4) + "}");
 		}
+	} else if (mode == "flood") {
+		// "every operation completes", restated as bounded progress: a store / rise / remove issued while R threads keep fetching a
+		// hot key (the cache's very purpose: many workers serving one cached page) returns within `bound` seconds although the
+		// readers never pause. The writer publishes when it starts an operation; the main thread watches the clock.
+		int R = (int)a.num("readers", 8);
+		int writes = (int)a.num("writes", 40);
+		double bound = (double)a.num("bound", 10);
+		bool shared = a.has("shared");
+		booster::intrusive_ptr<base_cache> c = shared ? cppcms::impl::process_cache_factory(8 << 20, 0) : cppcms::impl::thread_cache_factory(0);
+		std::set<std::string> notr;
+		std::string big(50000, 'v');
+		c->store("hot", big, notr, time(0) + 100000, 0);
+		std::atomic<bool> stop(false);
+		std::atomic<long> fetches(0), op_started_ms(-1), completed(0);
+		auto now_ms = []() { struct timespec ts; clock_gettime(CLOCK_MONOTONIC, &ts); return (long)(ts.tv_sec * 1000L + ts.tv_nsec / 1000000L); };
+		std::vector<std::thread> th;
+		for (int i = 0; i < R; i++) th.push_back(std::thread([&]() { std::string v; while (!stop.load(std::memory_order_relaxed)) { c->fetch("hot", &v, 0, 0, 0); fetches++; g_progress++; } }));
+		long worst = 0;
+		std::thread writer([&]() {
+			for (int i = 0; i < writes && !stop.load(); i++) {
+				long t0 = now_ms(); op_started_ms = t0;
+				switch (i % 4) { case 0: case 1: c->store(i % 8 == 0 ? "hot" : "other", i % 8 == 0 ? big : std::string("x"), notr, time(0) + 100000, 0); break; case 2: c->rise("no-such-trigger"); break; default: c->remove("other"); }
+				long dt = now_ms() - t0; if (dt > worst) worst = dt;
+				op_started_ms = -1; completed++;
+				usleep(2000);
+			}
+		});
+		bool starved = false;
+		while (completed.load() < writes) {
+			usleep(20000);
+			long s0 = op_started_ms.load();
+			if (s0 >= 0 && now_ms() - s0 > (long)(bound * 1000)) { starved = true; break; }
+		}
+		long seen = fetches.load();
+		stop = true;                         // without readers the writer gets through
+		writer.join(); for (auto &t : th) t.join();
+		std::string rp = "{\"mode\":\"flood\",\"backend\":\"" + std::string(shared ? "process_shared" : "thread_shared") + "\",\"readers\":" + std::to_string(R) + ",\"bound_s\":" + std::to_string((int)bound) + "}";
+		if (starved) O().viol("conc:writer-starved-by-continuous-readers", std::string(shared ? "process_shared" : "thread_shared") + " cache: an operation that needs the exclusive lock had not returned after " + std::to_string((int)bound) + " s while " + std::to_string(R) + " threads kept fetching one key (" + std::to_string(seen) + " fetches meanwhile, " + std::to_string(completed.load()) + " of " + std::to_string(writes) + " writes done)", rp);
+		O().count("flood_scenarios"); O().count("flood_fetches", seen); O().count("flood_writes_completed", completed.load());
+		O().raw("flood_worst_write_ms", std::to_string(worst));
+		O().seen("shapes", mix(900 + (shared ? 1 : 0), R));
 	} else if (mode == "netshort") {
 		long long hist = a.num("histories", 300);
 		std::unique_ptr<net_world> w;
